@@ -1,4 +1,5 @@
 import EmsModel.Core.CliSpec
+import EmsModel.Core.CliHist
 import EmsModel.Core.Proto
 import EmsModel.Gen.Tables
 /-! Line-protocol driver for C20.  Text arguments travel as decimal code points joined by
@@ -22,6 +23,9 @@ import EmsModel.Gen.Tables
 `space <code point>`                          → `0` | `1`
 `double <p/q>`                                → nearest binary64 as `p/q`
 `propcheck <text>`                            → `ok` | `FAIL:<why>` (decidable consequences of the theorems)
+`fshist <text> <nojson|geometry|notgeometry> <path text> <file name text> <event>*`
+        event = `<path text>=a` (removed) | `=d` (a directory) | `=f<ver>:<loads 0|1>` (the ver-th text written), oldest first
+                                              → `BOX …` | `JSON` | `FILE:<ver>` | `ERR:<kind>` (what the path holds NOW decides)
 -/
 open Ems Ems.Proto Ems.Cli
 
@@ -84,6 +88,31 @@ def parseFailure? (s : String) : Option Failure :=
   | _ => none
 
 def b2s (b : Bool) : String := if b then "1" else "0"
+
+-- ---- round 6: histories of the scratch directory ------------------------------------------
+def parseFsEntry? (s : String) : Option FsEntry :=
+  if s == "a" then some .absent
+  else if s == "d" then some .dir
+  else if s.startsWith "f" then
+    match (s.drop 1).toString.splitOn ":" with
+    | [v, l] => match parseNat? v, parseBool? l with
+      | some v, some l => some (.file v l)
+      | _, _ => none
+    | _ => none
+  else none
+
+def parseFsEvent? (s : String) : Option FsEvent :=
+  match s.splitOn "=" with
+  | [p, e] => match parseText? p, parseFsEntry? e with
+    | some p, some e => some ⟨p, e⟩
+    | _, _ => none
+  | _ => none
+
+def showGeomV : Except UsageError GeomV → String
+  | .ok (.box b) => showBox b
+  | .ok .ofJson => "JSON"
+  | .ok (.ofFile v) => s!"FILE:{v}"
+  | .error e => showUsage e
 
 /-- decidable consequences of `parseBounds_iff` / `geometry_argument_order` on one text -/
 def propcheck (s : List Char) : String :=
@@ -202,6 +231,10 @@ def step (line : String) : String :=
     match parseText? t with
     | some s => propcheck s
     | none => "BAD"
+  | "fshist" :: t :: j :: pth :: nm :: evs =>
+    match parseText? t, parseJson? j, parseText? pth, parseText? nm, allSome (evs.map parseFsEvent?) with
+    | some s, some j, some pth, some nm, some evs => showGeomV (geometryArgumentAfter evs s j pth nm)
+    | _, _, _, _, _ => "BAD"
   | ["choices", "format"] => joinWith "," formatChoices
   | ["choices", "missing-points"] => joinWith "," missingPointPolicies
   | ["pattern"] => s!"{boundsAst.pattern} flags={boundsFlags}"
